@@ -27,7 +27,7 @@ P("C05", "other", True, KB,
   "P: REPINV obligations of the Network family (shared with C01); B: bounded/c05.py.",
   extra="REPINV")
 P("C06", "other", True, KB,
-  "Bounded: every ordered pair of public queries on registry instances with snapshots of all reachable arrays; constructors of derived objects vs caller arrays. P: in-place-write inventory of every public query (frame analyser): each in-place write targets a cached result only inside a recognised edit/restore pair.",
+  "Bounded: every ordered pair of public queries on registry instances with snapshots of all reachable arrays; constructors of derived objects vs caller arrays. P: in-place-write inventory of every public query (frame analyser): each in-place write targets a cached result only inside an edit/restore pair whose array-theory VC proves elementwise restoration; (FRAME) every compiled kernel under contract leaves each array parameter outside its `modifies` list with its entry contents (heap equality at every return); R: the same frame clauses evaluated at run time on the rebuilt kernels incl. inputs with NaN / inf samples.",
   "Alias/freshness facts of NumPy (view vs copy) are assumed per DESIGN.md 3.3.",
   "P: INPLACE obligations from the frame analyser; B: bounded/c06.py.", extra="INPLACE")
 P("C07", "other", True, KB,
@@ -35,9 +35,10 @@ P("C07", "other", True, KB,
   "Thresholding / rate logic lives in NumPy code checked by the bounded layer.",
   "P: DIST/EMBED kernel specs; B: bounded/c07.py.", notdec=["NaN arithmetic beyond the supremum-kernel facts"])
 P("C08", "proof", True, KB,
-  "Proved for every matrix and size: each of the five non-missing-value instantiations of the generic line kernel (vertical, diagonal, white vertical, and the two sequential ones, verified through their def wrappers with the kernel inlined) leaves hist[L-1] = hist0[L-1] + number of maximal runs of exactly L line cells, the count being the fold of a non-recursive maximal-run predicate over the traversal the library documents (diagonals below the main diagonal, whole columns); every increment happens at the end of a maximal run (asserts) and hist indices stay in [0,n_time). The sequential instantiations use the same supremum fold as the distance-matrix kernel and a double threshold (type obligation), so sequential = matrix mode. Missing-value instantiations: index safety and the k/missing_flag protocol. Bounded: direct run-length counting, conservation, RQA formulas on the real code.",
-  "The RQA scalar formulas (DET, L, ENTR, ...) are NumPy expressions checked by the bounded layer; floats as reals.",
-  "P: RUNLEN/COUNT obligations of 9 wrappers; B: bounded/c08.py.", extra="C08TYPES")
+  "Proved for every matrix and size: each of the five non-missing-value instantiations of the generic line kernel (vertical, diagonal, white vertical, and the two sequential ones, verified through their def wrappers with the kernel inlined) leaves hist[L-1] = hist0[L-1] + number of maximal runs of exactly L line cells, the count being the fold of a non-recursive maximal-run predicate over the traversal the library documents (diagonals below the main diagonal, whole columns); every increment happens at the end of a maximal run (asserts) and hist indices stay in [0,n_time). The sequential instantiations use the same supremum fold as the distance-matrix kernel and a double threshold (type obligation), so sequential = matrix mode. Missing-value instantiations: index safety and the k/missing_flag protocol. (FORMULA) determinism, laminarity, the three average line lengths (trapping time and mean recurrence time are forwarding aliases), the three maximal line lengths and the three line entropies are proved equal to the stated indexed sums of the histogram H returned by the *_dist() method (P(l)=H[l-1]; py_mode VCs with the 1-d NumPy vector semantics of pvc/npvec.py: arange, slices, @, sum, extract, nonzero; log uninterpreted). Bounded: direct run-length counting, conservation, RQA formulas on the real code; run-time evaluation of the proved contracts on the rebuilt kernels and methods.",
+  "Floats as reals; NumPy's 1-d vector operations have the semantics stated in pvc/npvec.py (assumed); recurrence_rate / recurrence_probability (2-d reductions) are bounded-only.",
+  "P: RUNLEN/COUNT obligations of 9 wrappers, FORMULA obligations of 11 RQA measures + 2 aliases; R: run-time contract check; B: bounded/c08.py.",
+  notdec=["recurrence_rate, recurrence_probability (2-d NumPy reductions): bounded layer only", "floating-point rounding of the quotients"], extra="C08TYPES")
 P("C09", "other", True, KB,
   "Proved: (MASK) _calculate_threshold_adjacency returns A[i,j]=1 exactly for i!=j and S[i,j]>threshold (strict; the flat stride N+1 clears exactly the diagonal) - py_mode VC with NumPy mask semantics on the real method body; (QUANTILE index) threshold_from_link_density indexes inside the sorted array for every density in [0,1] and at most density*L entries lie above the selected order statistic; REPINV/GUARD of set_threshold/set_link_density/set_non_local. Bounded: strict-mask semantics, monotonicity, symmetry inheritance, density bound and setter chains on the real code for all small similarity matrices.",
   "The thresholding itself is NumPy code; proved obligations cover the state consistency only.",
@@ -63,9 +64,9 @@ P("C14", "proof", True, KB,
   "float32 evaluation agrees with the real-arithmetic criterion only within the magnitude bound stated in the bounded layer.",
   "P: NVG/HVG/MV obligations; B: bounded/c14.py.", notdec=["float32 ties beyond |values|,|times| < 2^11"])
 P("C15", "other", True, KB,
-  "Proved: embedding kernel spec and bounds of the surrogate kernels' array accesses. Bounded: permutation exactness, amplitude spectra, twin structure, repeated calls.",
-  "Twin lists are Python objects outside the encodable subset; FFT accuracy is numerical.",
-  "P: _embed_time_series_array; B: bounded/c15.py.", notdec=["FFT round-trip accuracy"])
+  "Proved: embedding kernel spec and bounds of the surrogate kernels' array accesses; (TWINS) the recurrence-plot twins kernel _twins_r lists, for every state j, exactly the states k with identical recurrence columns, equal non-trivial neighbour counts and |j-k| > min_dist, each exactly once (the Python list of lists is modelled by its multiplicity table). Bounded: permutation exactness, amplitude spectra, twin structure, repeated calls, rescaling histories.",
+  "The Surrogates twins kernel (_twins_s, three-level lists) and the twin-surrogate walks are bounded-only; FFT accuracy is numerical.",
+  "P: _embed_time_series_array, _twins_r; R: run-time contract check; B: bounded/c15.py.", notdec=["FFT round-trip accuracy", "_twins_s / _twin_surrogates_* (Python list walks): bounded layer only"])
 P("C16", "other", True, "bounded contract check (the vectorised NumPy bodies are outside the VC generator's subset)",
   "Bounded: all binary event pairs up to T<=8 against definition-level ES / ECA counting formulas, exchange / shift / rescale relations, symmetrisation table, threshold extraction.",
   "No unbounded proof obligations exist for this property; stated in DESIGN.md.",
